@@ -331,4 +331,16 @@ def runTask (fuel : Nat) (c : Conn) (pollNo : Nat) (stopAt : Option Nat) : Conn 
           | some k => if k > pollNo && !c.stop then runTask fuel c k stopAt else (c, "STALL")
           | none => (c, "STALL")
 
+/-- `gt=1` runs (C13): the semaphore is saturated (the other `max_conns - 1` permits are held) and after every
+poll of the connection task that returned `Pending` a fresh `get_token()` is polled once; one more probe
+follows after the task has been dropped.  `Token::run` takes `self`: the `Token`, and with it the permit,
+lives until the task is gone — so every probe before the end is `Pending` (`G:P`), the last one `Ready`
+(`G:R`).  The trace carries a `|n` marker at the start of every poll; every marker but the first follows
+exactly one `Pending` result. -/
+def gateTrace (events : List String) (fin : String) : List String :=
+  let body := (events.foldl (fun (acc : List String × Bool) e =>
+      if e.startsWith "|" then (if acc.2 then (acc.1 ++ [e], false) else (acc.1 ++ ["G:P", e], false))
+      else (acc.1 ++ [e], acc.2)) ([], true)).1
+  body ++ (if fin.startsWith "STALL" then ["G:P", "G:R"] else ["G:R"])
+
 end Fcgi.Run
